@@ -10,6 +10,7 @@ import (
 	"crypto/x509/pkix"
 	"encoding/pem"
 	"fmt"
+	spb "github.com/google/go-sev-guest/proto/sevsnp"
 	"math/big"
 	"os"
 	"path/filepath"
@@ -428,6 +429,19 @@ func opClass(op string) string {
 // callEntry drives one entry point. It returns the entry point's error (nil = accepted).
 func callEntry(r *core.Run, entry int, d delivery, cpool *x509.CertPool, rootList []*x509.Certificate, t time.Time, net *SimNet, a *Party) (err error, name string, skipped bool) {
 	ctx := output.NewContext(context.Background(), &output.Options{Quiet: true})
+	// the report's FAMILY_ID is the guest owner's to set (an ID block): zero on most machines, the
+	// firmware family's on some, anything on others. It says nothing about who signed what.
+	var famID []byte
+	if r.Chance(25, "report-family-id?") {
+		famID = bytes.Repeat([]byte{byte(1 + r.Intn(250, "family-id-byte"))}, 16)
+	}
+	snpAtt := func(meas, blob []byte) *spb.Attestation {
+		at := SnpAttestation(meas, blob)
+		if famID != nil {
+			at.Report.FamilyId = famID
+		}
+		return at
+	}
 	le := &epb.VMLaunchEndorsement{}
 	parsed := proto.Unmarshal(d.bytes, le) == nil
 	// the measurement the attestation carries: one the delivered document lists, when it can be read
@@ -481,25 +495,25 @@ func callEntry(r *core.Run, entry int, d delivery, cpool *x509.CertPool, rootLis
 		return verify.EndorsementProto(le, &verify.Options{RootsOfTrust: cpool, Now: t}), "verify.EndorsementProto", false
 	case 2:
 		f := verify.SNPValidateFunc(&verify.Options{RootsOfTrust: cpool, Now: t})
-		return f(SnpAttestation(meas, nil), d.bytes), "closure/cert-table", false
+		return f(snpAtt(meas, nil), d.bytes), "closure/cert-table", false
 	case 3:
 		f := verify.SNPValidateFunc(&verify.Options{RootsOfTrust: cpool, Now: t, Getter: net})
-		return f(SnpAttestation(meas, nil), nil), "closure/getter", false
+		return f(snpAtt(meas, nil), nil), "closure/getter", false
 	case 4:
 		if !parsed {
 			return nil, "", true
 		}
 		f := verify.SNPValidateFunc(&verify.Options{RootsOfTrust: cpool, Now: t, Endorsement: le})
-		return f(SnpAttestation(meas, nil), nil), "closure/options", false
+		return f(snpAtt(meas, nil), nil), "closure/options", false
 	case 5:
 		if !parsed {
 			return nil, "", true
 		}
-		return gcetcbendorsement.SevValidate(ctx, SnpAttestation(meas, nil), &gcetcbendorsement.SevValidateOptions{Endorsement: le, RootsOfTrust: cpool, Now: t}), "SevValidate/given", false
+		return gcetcbendorsement.SevValidate(ctx, snpAtt(meas, nil), &gcetcbendorsement.SevValidateOptions{Endorsement: le, RootsOfTrust: cpool, Now: t}), "SevValidate/given", false
 	case 6:
-		return gcetcbendorsement.SevValidate(ctx, SnpAttestation(meas, d.bytes), &gcetcbendorsement.SevValidateOptions{RootsOfTrust: cpool, Now: t}), "SevValidate/extras", false
+		return gcetcbendorsement.SevValidate(ctx, snpAtt(meas, d.bytes), &gcetcbendorsement.SevValidateOptions{RootsOfTrust: cpool, Now: t}), "SevValidate/extras", false
 	case 7:
-		return gcetcbendorsement.SevValidate(ctx, SnpAttestation(meas, nil), &gcetcbendorsement.SevValidateOptions{RootsOfTrust: cpool, Now: t, Getter: net}), "SevValidate/bucket", false
+		return gcetcbendorsement.SevValidate(ctx, snpAtt(meas, nil), &gcetcbendorsement.SevValidateOptions{RootsOfTrust: cpool, Now: t, Getter: net}), "SevValidate/bucket", false
 	case 8, 11:
 		// cobra commands
 		io := newMemIO()
@@ -532,11 +546,16 @@ func callEntry(r *core.Run, entry int, d delivery, cpool *x509.CertPool, rootLis
 		}
 		switch r.Intn(3, "cli-cmd") {
 		case 0:
+			if r.Chance(20, "verify-two-files?") {
+				// the delivery first, a genuine endorsement after it: the command takes one file
+				io.Files["genuine.binarypb"] = d.base.Bytes
+				return cli("verify", "e.binarypb", "genuine.binarypb"), "cli/verify+second-file" + via, false
+			}
 			return cli("verify", "e.binarypb"), "cli/verify" + via, false
 		case 1:
 			// (a bare sevsnp.Attestation serialization is sniffed as a TEE-less go-tpm-tools
 			// Attestation by extract.Attestation, so the documented wrapper format is used)
-			at, _ := proto.Marshal(&tpmpb.Attestation{TeeAttestation: &tpmpb.Attestation_SevSnpAttestation{SevSnpAttestation: SnpAttestation(meas, nil)}})
+			at, _ := proto.Marshal(&tpmpb.Attestation{TeeAttestation: &tpmpb.Attestation_SevSnpAttestation{SevSnpAttestation: snpAtt(meas, nil)}})
 			io.Files["att.bin"] = at
 			return cli("sev", "validate", "--endorsement", "e.binarypb", "att.bin"), "cli/sev-validate" + via, false
 		default:
@@ -552,24 +571,24 @@ func callEntry(r *core.Run, entry int, d delivery, cpool *x509.CertPool, rootLis
 		if !parsed {
 			return nil, "", true
 		}
-		return gcetcbendorsement.SevValidate(ctx, SnpAttestation(meas, d.base.Bytes), &gcetcbendorsement.SevValidateOptions{Endorsement: le, RootsOfTrust: cpool, Now: t}), "SevValidate/given+table", false
+		return gcetcbendorsement.SevValidate(ctx, snpAtt(meas, d.base.Bytes), &gcetcbendorsement.SevValidateOptions{Endorsement: le, RootsOfTrust: cpool, Now: t}), "SevValidate/given+table", false
 	case 13:
 		if !parsed {
 			return nil, "", true
 		}
 		f := verify.SNPValidateFunc(&verify.Options{RootsOfTrust: cpool, Now: t, Endorsement: le})
-		return f(SnpAttestation(meas, nil), d.base.Bytes), "closure/options+table", false
+		return f(snpAtt(meas, nil), d.base.Bytes), "closure/options+table", false
 	case 15:
 		// a long-lived validator: built while the relying party trusted the genuine root and the
 		// certificate was valid, used after the party changed its options value (its roots, its
 		// clock). The options the caller configured at the time of the call decide.
 		o := &verify.Options{RootsOfTrust: Pool(a.Root), Now: a.A.Now.Add(time.Hour)}
 		f := verify.SNPValidateFunc(o)
-		if perr := f(SnpAttestation(meas, nil), d.base.Bytes); perr == nil {
+		if perr := f(snpAtt(meas, nil), d.base.Bytes); perr == nil {
 			r.Probe("late-options-validator-primed")
 		}
 		o.RootsOfTrust, o.Now = cpool, t
-		return f(SnpAttestation(meas, nil), d.bytes), "closure/late-options", false
+		return f(snpAtt(meas, nil), d.bytes), "closure/late-options", false
 	case 14:
 		// sign/ops: verify a message signature "from the CA": the CA double serves the delivered
 		// certificate for the key and the caller's roots as its bundle
